@@ -459,7 +459,13 @@ class LazyFn(LazyObject[_T]):
       return hash(self.id)
 
   def _arg_types(self):
-    return [type(x) for x in self.args] + [type(v) for _, v in self.kwargs]
+    def arg_type(x):
+      # A traced plain value, e.g., trace(1), counts as the value it holds.
+      return type(x.value) if type(x) is LazyObject else type(x)
+
+    return [arg_type(x) for x in self.args] + [
+        arg_type(v) for _, v in self.kwargs
+    ]
 
   def __eq__(self, other: Self):
     # 1, True and 1.0 are equal and hash alike, yet f(1) is not f(True): the
